@@ -85,6 +85,15 @@ def iter_view(eng, st, it: V) -> IterView:
         return IterView(z3.Length(d.keys), lambda i: unbox(z3.Select(d.vals, d.keys[i]), d.vk), seq=d.keys)
     if isinstance(it, DictV):
         return IterView(z3.Length(it.keys), lambda i: unbox(it.keys[i], it.kk), seq=it.keys)
+    if isinstance(it, bm.ChainV):
+        if it.parts and all(isinstance(p, DictV) and p.kk == it.parts[0].kk for p in it.parts):
+            kk, seqs = it.parts[0].kk, [p.keys for p in it.parts]
+        elif it.parts and all(isinstance(p, ListV) and p.elem == it.parts[0].elem for p in it.parts):
+            kk, seqs = it.parts[0].elem, [p.t for p in it.parts]
+        else:
+            raise Unsupported("itertools.chain over parts that are not all dicts (or all lists) of one kind")
+        seq = seqs[0] if len(seqs) == 1 else z3.Concat(*seqs)
+        return IterView(z3.Length(seq), lambda i: unbox(seq[i], kk), seq=seq)
     h = eng.registry.iter_hook(it)
     if h is not None:
         return h(eng, st, it)
@@ -148,6 +157,26 @@ def havoc(eng, st: State, names, tag):
         v = st.vars[n]
         s.vars[n] = fresh_like(eng, v, f"{n}_{tag}")
     return s
+
+
+def check_kinds_stable(eng, head: State, end: State, names, lineno):
+    """Soundness of the loop cut: the arbitrary-iteration state gives every loop-modified variable a fresh value of the
+    kind it had on entry, so a body that stores a value of a wider kind (e.g. an Optional into a variable that entered as a
+    plain reference) would silently lose behaviours.  Such a loop is out of the subset until the kind is declared
+    (locals(name=Kind))."""
+    from .kinds import fits
+
+    for n in sorted(names):
+        hv, ev = head.vars.get(n), end.vars.get(n)
+        if hv is None or ev is None or hv is ev or isinstance(hv, ConstV):
+            continue
+        try:
+            k = hv.kind
+        except Exception:  # noqa: BLE001
+            continue
+        if not fits(ev, k):
+            raise Unsupported(f"loop at line {lineno}: variable {n!r} enters as {k!r} but the body stores a value of another "
+                              f"kind; declare it with locals({n}=...)")
 
 
 def fresh_like(eng, v: V, name):
@@ -215,6 +244,7 @@ def _cut_for(eng, s: ast.For, st: State, view: IterView):
             continue
         for bo in eng.exec_block(s.body, a.state):
             if bo.kind in ("normal", "continue"):
+                check_kinds_stable(eng, sh, bo.state, mods, s.lineno)
                 g2 = {idx_name: IntV(i + 1), "_n": IntV(n)}
                 for k, inv in enumerate(lc.invariants):
                     goal = eng.eval_contract_expr(inv, bo.state, g2, where=f"inv{k}")
@@ -290,6 +320,11 @@ def exec_while(eng, s: ast.While, st: State):
     sh = havoc(eng, st, mods, "h")
     for inv in lc.invariants:
         sh = sh.assume(eng.eval_contract_expr(inv, sh, {}, where="assume"))
+    for hk, hint in enumerate(lc.hints):
+        # a hint is an intermediate lemma at the loop head: proved from the invariants (obligation), then assumed
+        hf = eng.eval_contract_expr(hint, sh, {}, where="hint")
+        eng.oblige("hint", f"{where}.{hk}", sh, hf, s.lineno)
+        sh = sh.assume(hf)
     dec0 = None
     if lc.decreases is not None:
         dec0 = eng.eval_contract_term(lc.decreases, sh, {})
@@ -302,6 +337,7 @@ def exec_while(eng, s: ast.While, st: State):
         if not z3.is_false(t) and eng.feasible(sa):
             for bo in eng.exec_block(s.body, sa):
                 if bo.kind in ("normal", "continue"):
+                    check_kinds_stable(eng, sh, bo.state, mods, s.lineno)
                     for k, inv in enumerate(lc.invariants):
                         eng.oblige("inv-keep", f"{where}.{k}", bo.state,
                                    eng.eval_contract_expr(inv, bo.state, {}, where=f"inv{k}"), s.lineno)
